@@ -93,6 +93,42 @@ def check_int_table(case):
     return (sig, nexec), fails
 
 
+def check_sequence(case):
+    """case = ("seq", scheme, first table, second table): one lifting object serves the first table and then the second
+    (as the one object of an event handler serves event after event): every selection on the second table must be the
+    selection of a fresh object -- nothing may survive reset()."""
+    _, scheme, first, second = case
+    cls = _cls(scheme)
+    fails = []
+    ratio = n_draws(scheme) == 2
+    nexec = 0
+    a0 = next(i for i, v in enumerate(first) if v > 0)
+    sneg = -sum(v for v in second if v < 0)
+    for a, qa in enumerate(second):
+        if qa <= 0:
+            continue
+        grid = [(0.5, (j + 0.5) / (sneg * 2)) for j in range(sneg * 2)] if ratio else \
+            [((j + 0.5) / (qa * 2),) for j in range(qa * 2)]
+        for ans in grid:
+            used = cls()
+            try:
+                select(used, first, a0, (0.5, 0.5) if ratio else (0.5,))
+                k, _ = select(used, second, a, ans)
+                k2, _ = select(cls(), second, a, ans)
+            except Exception as e:
+                fails.append(("exception", "%s tables %r then %r active=%d draws=%r raised %r"
+                              % (scheme, first, second, a, ans, e)))
+                continue
+            nexec += 1
+            if k != k2:
+                fails.append(("state-dependent", "%s: an object that served table %r before selects unit %r for table "
+                              "%r (active %d, draws %r); a fresh object selects %r"
+                              % (scheme, first, k, second, a, ans, k2)))
+    sig = (scheme, "seq", len(first), len(second), sum(first[i] for i in range(len(first)) if first[i] > 0) <
+           sum(v for v in second if v > 0))
+    return (sig, nexec), fails
+
+
 def step_function(lifting, table, a, ratio, n=256):
     """Measure of u-intervals selecting each unit (u = the deciding draw in [0,1)), breakpoints found by bisection."""
     def sel(u):
@@ -362,7 +398,7 @@ def check_bending_handler(case):
     return (("bendhandler", scheme, sum(1 for v in table.values() if v > 0)), nexec), fails
 
 
-DISPATCH = {"int": check_int_table, "float": check_float_table, "ids": check_order, "pairhandler": check_pair_handler,
+DISPATCH = {"seq": check_sequence, "int": check_int_table, "float": check_float_table, "ids": check_order, "pairhandler": check_pair_handler,
             "bendhandler": check_bending_handler}
 
 
@@ -392,6 +428,12 @@ def cases(ctx):
     for tab in tables(ctx):
         for s in SCHEMES:
             yield ("int", s, tab)
+    small = [t for t in tables(ctx) if len(t) <= 3] + [(1, 2, -1, -2), (3, -1, -1, -1), (1, 1, 1, -3)]
+    for s in SCHEMES:
+        for t1 in small:
+            for t2 in small:
+                if t1 != t2:
+                    yield ("seq", s, t1, t2)
     for tab in FLOAT_TABLES:
         for s in SCHEMES:
             yield ("float", s, tab)
